@@ -569,11 +569,11 @@ PROPERTIES["C10"]["runs"] += [dict(_P10, name="_contracts", quick=dict(params=di
 PROPERTIES["C10"]["bounds"]["quick"] += "; the same family over 5 straight-line forms with contract collection (real SSA, real inferContracts) switched on"
 
 PROPERTIES["C18"] = dict(
-    explanation=PIPE_EXPL + "C18: every two-package program of the C01 grammar is analysed under three layouts - module at /m started in /m; module relocated to /srv/x/m and started there; module at /m but started in /m/p. "
+    explanation=PIPE_EXPL + "C18: every two-package program of the C01 grammar is analysed under four layouts - module at /m started in /m; module relocated to /srv/x/m and started there; module at /m but started in /m/p or in /m/q (the dependency's directory). "
                 "The working directory is the value tokenhelper captured at start-up (set through an export helper), file names reach NilAway through the file set as a driver registers them, and the dependency's facts "
-                "(site identities with relativised file names) are handed to the importer. Relocation must give the same places and byte-identical messages; another working directory must give the same places, "
+                "(site identities with relativised file names) are handed to the importer. Relocation and another start directory must give the same positions (file, line, column) and the same set of message texts (the order in which diagnostics are listed follows the relativised file names and is not compared), "
                 "i.e. every cross-package flow is still found. The RelToCwd kernel itself (real path/filepath) runs under C14.",
-    bounds=dict(quick="the 742 two-statement two-package programs x 3 layouts", thorough="the three-statement programs over 5 straight-line forms x 3 layouts"),
+    bounds=dict(quick="the 742 two-statement two-package programs x 4 layouts", thorough="the three-statement programs over 5 straight-line forms x 4 layouts"),
     outside=PIPE_OUTSIDE + ["dependency and importer analysed with DIFFERENT working directories (separate tool invocations started in different directories)", "symbolic links, relative file names handed out by sandboxing drivers, Windows paths",
                             "-print-full-file-path (the kernel under C14 covers RelToCwd; the flag's plumbing is not run here)", "facts are handed over by reference, not through gob"],
     assumptions=PIPE_ASSUME + ["the working directory is injected by assigning tokenhelper's captured value (os.Getwd is not called)"],
@@ -591,11 +591,11 @@ PROPERTIES["C20"]["bounds"]["quick"] += "; K1 also on the 590 depth-2 functions 
 
 _P01Y = dict(pkg="accumulation", files=PIPE_FILES, entry="Harness_P01Y", quick=dict(params=dict(STMTS=2, COMPOUND=5)), thorough=dict(params=dict(STMTS=3, COMPOUND=4, SIMPLE=5)), args=dict(sample_every=61, max_samples=12))
 PROPERTIES["C03"]["runs"] += [dict(_P01Y, name="_chain3")]
-PROPERTIES["C03"]["bounds"]["quick"] += "; source level: the 742 two-statement programs over a chain of three packages (callee in the base, a forwarding function in the middle, the entry on top) vs one package"
+PROPERTIES["C03"]["bounds"]["quick"] += "; source level: 1570 two-statement programs over a chain of three packages (callee in the base, forwarding and accessor functions in the middle, the entry on top; the top importing the base or not; optionally a nolint comment in the base) vs one package"
 PROPERTIES["C06"]["runs"] += [dict(_P01Y, name="_source_chain3")]
 PROPERTIES["C06"]["explanation"] += (" Source level (P01Y): " + PIPE_EXPL + "the programs of the C01 grammar over a chain of three packages; the flow from the top package's argument to the base package's dereference (and back through the result) "
     "crosses the middle package's forwarding function, i.e. it is carried by the facts the middle package exports.")
-PROPERTIES["C06"]["bounds"]["quick"] += "; source level: 742 programs over a chain of three packages"
+PROPERTIES["C06"]["bounds"]["quick"] += "; source level: 1570 programs over a chain of three packages"
 PROPERTIES["C01"]["runs"] += [dict(_P01Y, name="_three_packages")]
-PROPERTIES["C01"]["bounds"]["quick"] += "; P01Y: the 742 two-statement programs over a chain of three packages"
+PROPERTIES["C01"]["bounds"]["quick"] += "; P01Y: 1570 two-statement programs over a chain of three packages"
 PROPERTIES["C01"]["outside"] = [o.replace("more than two packages", "more than three packages") for o in PROPERTIES["C01"]["outside"]]
